@@ -142,16 +142,27 @@ TypesCase(i) ==
               fields |-> << PlainF("v", sh.t, 0), PlainF("w", P("bool"), 0) >>] >>
 
 -----------------------------------------------------------------------------
-Parts == <<"seq", "items", "types">>
+(* trailers: what may follow the last definition - comments that document nothing *)
+Trailers == << << NL, "/* the end */" >>, << NL, "// the end" >>, << "/* same line */" >>, << NL, "/* one */", SL, "/* two */" >>,
+               << NL, "// one", NL, "// two" >>, << NL, "/**\n * javadoc\n */" >> >>
+NTrailerCases == NVariants * Len(Trailers)
+TrailerItems(i) == << DV(((i - 1) % NVariants) + 1, 1) >>
+TrailerOf(i) == Trailers[((i - 1) \div NVariants) + 1]
+
+Parts == <<"seq", "items", "types", "trailer">>
 Count(p) == CASE p = "seq" -> NSeqs(NVariants, MaxSeq)
               [] p = "items" -> 4 * NItemSeqs
               [] p = "types" -> NTypeCases
+              [] p = "trailer" -> NTrailerCases
 Items == CASE part = "seq" -> SeqItems(ci)
            [] part = "items" -> ItemsCase(ci)
            [] part = "types" -> TypesCase(ci)
+           [] part = "trailer" -> TrailerItems(ci)
+\* the text: the items, then (trailer part) comments that belong to nothing
+Text == IF part = "trailer" THEN SubSeq(Tokens(Items), 1, Len(Tokens(Items)) - 1) \o TrailerOf(ci) ELSE Tokens(Items)
 
 Init == part = "" /\ ci = 0
-Next == \/ part = "" /\ part' \in {"seq", "items", "types"} /\ UNCHANGED ci
+Next == \/ part = "" /\ part' \in {"seq", "items", "types", "trailer"} /\ UNCHANGED ci
         \/ part # "" /\ ci = 0 /\ ci' \in 1..Count(part) /\ UNCHANGED part
 IsCase == ci > 0
 
@@ -160,6 +171,6 @@ Wellformed == IsCase =>
    LET f == FileOf(Items) IN
    Len(f.imports) + Len(f.consts) + Len(f.enums) + Len(f.structs) + Len(f.messages) + Len(f.unions) = Len(Items)
 
-Export == IsCase => PrintT("@@PCASE " \o ToJson([part |-> part, ci |-> ci, tokens |-> Tokens(Items), file |-> FileOf(Items),
+Export == IsCase => PrintT("@@PCASE " \o ToJson([part |-> part, ci |-> ci, tokens |-> Text, file |-> FileOf(Items),
                                                   asisfile |-> FileOfX(Items, TRUE)]))
 =============================================================================
